@@ -4,6 +4,7 @@ go 1.20
 
 require (
 	github.com/chzyer/readline v1.5.1
+	github.com/stretchr/testify v1.8.2
 	golang.org/x/net v0.8.0
 )
 
@@ -11,7 +12,6 @@ require (
 	github.com/davecgh/go-spew v1.1.1 // indirect
 	github.com/pmezard/go-difflib v1.0.0 // indirect
 	github.com/stretchr/objx v0.5.0 // indirect
-	github.com/stretchr/testify v1.8.2 // indirect
 	golang.org/x/sys v0.6.0 // indirect
 	gopkg.in/yaml.v3 v3.0.1 // indirect
 )
